@@ -121,7 +121,8 @@ func c10Trace(g *gen.FG, side string, r *fw.Rand) *c10Side {
 			s.refs = append(s.refs, c10Ref{p.Tracer, "FAMC", fmt.Sprintf("%sF%02d", side, fi), g.Families[fi].Ptr})
 		}
 	}
-	g.Head = false
+	// half of the documents have a header and a trailer record, as real files do
+	g.Head = r.Bool()
 	s.text = g.Text()
 	return s
 }
